@@ -9,7 +9,10 @@
    (JSON records carry further construction-only fields that this module ignores):
 
      txt         cs (content: sequence of <<class, cell width>>, one per character),
-                 ov ("none","fold","crop","ellipsis","ignore"), nw (no_wrap)
+                 ov ("none","fold","crop","ellipsis","ignore"), nw (no_wrap),
+                 optional: end ("nl" | "none" | "sp": the text's `end` string; absent = "nl")
+     (root only, optional)  env: the console / options the recipe is rendered under; read here:
+                 env.oov (overflow handed in through ConsoleOptions, "none" = unset), env.onw (no_wrap)
      panel       c, pl, pr (horizontal padding), w (width option, 0 = None), ex (expand), title (cs)
      padding     c, pl, pr, ex
      align       c, w (0 = None)
@@ -80,7 +83,9 @@ ClsChar == 0    \* anything that is not white space
 ClsSpace == 1   \* white space that separates words but not lines
 ClsNL == 2      \* line feed
 ClsTab == 3     \* tab (measurement of such text is outside C09's exactness clause)
-ClsOther == 4   \* other line-boundary characters (outside, like tabs)
+ClsOther == 4   \* characters Text removes when it is constructed (CR, VT, FF): never in a recipe; outside, like tabs.
+                \* The characters only str.splitlines() takes for line boundaries (FS GS RS NEL LS PS) are white space of
+                \* width 0 inside a line for Rich (Text.split("\n"), Text.wrap): the driver sends them as <<ClsSpace, 0>>
 
 HasWide(cs) == \E i \in DOMAIN cs : cs[i][2] = 2
 LeafMin(cs) == IF HasWide(cs) THEN 2 ELSE 1
@@ -144,21 +149,49 @@ FreeTable(t) == /\ t.w = 0 /\ t.minw = 0
                 /\ \A j \in DOMAIN t.cols : t.cols[j].w = 0 /\ t.cols[j].minw = 0 /\ ~t.cols[j].nw
 OptOK(w, need) == w = 0 \/ w >= need
 
-RECURSIVE Scope(_, _)
-Scope(t, cropped) ==
-    CASE t.k = "txt"       -> (t.ov = "ignore" \/ t.nw) => cropped
-      [] t.k = "panel"     -> OptOK(t.w, MinW(t)) /\ Scope(t.c, TRUE)
-      [] t.k = "padding"   -> Scope(t.c, TRUE)
-      [] t.k \in {"align", "constrain"} -> OptOK(t.w, MinW(t.c)) /\ Scope(t.c, cropped)
-      [] t.k \in {"styled", "opaque", "cast"} -> Scope(t.c, cropped)
-      [] t.k = "group"     -> \A i \in DOMAIN t.ch : Scope(t.ch[i], cropped)
+\* C9 (audit-1): the caller may hand overflow / no_wrap in from outside (Console.print(overflow=, no_wrap=),
+\* ConsoleOptions.update): e = [ov, nw].  A text leaf without an overflow / no_wrap of its own takes them
+\* wherever no container resets them; on the way to a leaf that is NOT beneath a cropping container the
+\* options travel unchanged (align, constrain, styled, opaque, cast, group only narrow the width), so such a
+\* leaf is as loose as the options make it.  Beneath a cropping container the leaf is in scope either way (C6).
+\* C10 (audit-1): a text with an `end` other than the line feed (optional field end: "nl" | "none" | "sp") asks
+\* for its last line to be continued / extended: in scope only beneath a cropping container, like C6.
+NoEnv == [ov |-> "none", nw |-> FALSE]
+DefaultEnd(t) == "end" \notin DOMAIN t \/ t.end = "nl"
+LooseLeaf(t, e) == \/ t.ov = "ignore" \/ (t.ov = "none" /\ e.ov = "ignore")
+                   \/ t.nw \/ e.nw
+                   \/ ~DefaultEnd(t)
+\* a table / columns title or caption is one more text stacked above / below (C1): it is rendered with the
+\* options the table received, so it is as loose as they make it
+LooseTitle(cs, e) == Len(cs) > 0 /\ (e.ov = "ignore" \/ e.nw)
+\* rich.align.VerticalCenter (sent as k = "styled" with the optional field impl = "vcenter": transparent for MinW and for the
+\* budget) renders its child with Console.render_lines: it crops what it frames, like a panel (C6)
+IsVC(t) == t.k = "styled" /\ "impl" \in DOMAIN t /\ t.impl = "vcenter"
+RECURSIVE ScopeE(_, _, _)
+ScopeE(t, cropped, e) ==
+    CASE t.k = "txt"       -> LooseLeaf(t, e) => cropped
+      [] t.k = "panel"     -> OptOK(t.w, MinW(t)) /\ ScopeE(t.c, TRUE, e)
+      [] t.k = "padding"   -> ScopeE(t.c, TRUE, e)
+      [] t.k \in {"align", "constrain"} -> OptOK(t.w, MinW(t.c)) /\ ScopeE(t.c, cropped, e)
+      [] t.k \in {"styled", "opaque", "cast"} -> ScopeE(t.c, cropped \/ IsVC(t), e)
+      [] t.k = "group"     -> \A i \in DOMAIN t.ch : ScopeE(t.ch[i], cropped, e)
       [] t.k = "table"     -> /\ FreeTable(t)
-                              /\ \A j \in DOMAIN t.cols : Scope(t.cols[j].hdr, TRUE) /\ Scope(t.cols[j].ftr, TRUE)
-                              /\ \A i \in DOMAIN t.rows : \A j \in DOMAIN t.rows[i] : Scope(t.rows[i][j], TRUE)
-      [] t.k = "columns"   -> t.w = 0 /\ \A i \in DOMAIN t.ch : Scope(t.ch[i], TRUE)
-      [] t.k = "tree"      -> Scope(t.label, TRUE) /\ \A i \in DOMAIN t.ch : Scope(t.ch[i], TRUE)
+                              /\ (LooseTitle(t.title, e) \/ LooseTitle(t.caption, e)) => cropped
+                              /\ \A j \in DOMAIN t.cols : ScopeE(t.cols[j].hdr, TRUE, e) /\ ScopeE(t.cols[j].ftr, TRUE, e)
+                              /\ \A i \in DOMAIN t.rows : \A j \in DOMAIN t.rows[i] : ScopeE(t.rows[i][j], TRUE, e)
+      [] t.k = "columns"   -> /\ t.w = 0 /\ (LooseTitle(t.title, e) => cropped)
+                              /\ \A i \in DOMAIN t.ch : ScopeE(t.ch[i], TRUE, e)
+      [] t.k = "tree"      -> ScopeE(t.label, TRUE, e) /\ \A i \in DOMAIN t.ch : ScopeE(t.ch[i], TRUE, e)
       [] OTHER -> TRUE
+Scope(t, cropped) == ScopeE(t, cropped, NoEnv)
 InScope(t) == Scope(t, FALSE)
+\* the root of a recipe may carry the console / options environment it is rendered under (optional field env;
+\* only env.oov, env.onw matter here - everything else is construction-only)
+TreeEnv(t) == IF "env" \in DOMAIN t THEN [ov |-> t.env.oov, nw |-> t.env.onw] ELSE NoEnv
+\* env.prt (optional): the recipe was shown with Console.print on a console of width W and the lines are those of the output:
+\* print crops what it prints to the console width, i.e. the console itself is a cropping container around the root (C6)
+RootCropped(t) == "env" \in DOMAIN t /\ "prt" \in DOMAIN t.env /\ t.env.prt
+InScopeEnv(t) == ScopeE(t, RootCropped(t), TreeEnv(t))
 
 RECURSIVE Nesting(_)
 Nesting(t) ==
